@@ -310,7 +310,40 @@ fn run_liveness_prefixes(report: &Report, tier: Tier) -> Value {
             windows: vec![0],
         },
     );
+    // one correct node lags a whole window behind: the other two (with the Byzantine validator's
+    // votes) finalized slot 1, skipped 2-3 and notarized + finalized the Byzantine leader's block of
+    // slot 4 while nothing reached the third node; the leader then falls silent for slots 5-7
+    let mut lagging = ClusterSys::new(
+        "K4-one-node-lags-a-window",
+        k4b.clone(),
+        vec![0, 2, 3],
+        1,
+        ClusterAlphabet {
+            byz_votes: vec![
+                VoteSpec { kind: VK::Notar, slot: 1, blk: 0, signer: 1 },
+                VoteSpec { kind: VK::Final, slot: 1, blk: 0, signer: 1 },
+                VoteSpec { kind: VK::Skip, slot: 2, blk: 0, signer: 1 },
+                VoteSpec { kind: VK::Skip, slot: 3, blk: 0, signer: 1 },
+                VoteSpec { kind: VK::Notar, slot: 4, blk: 0, signer: 1 },
+                VoteSpec { kind: VK::Final, slot: 4, blk: 0, signer: 1 },
+            ],
+            forge: vec![(CK::Notar, 4, 0), (CK::Final, 4, 0), (CK::Final, 1, 0), (CK::Skip, 3, 0)],
+            blocks: vec![(b(1, 0), g), (b(4, 0), b(1, 0))],
+            invalid: vec![],
+            windows: vec![0, 4],
+        },
+    );
+    lagging.max_msgs = 64;
+    let ahead = vec![0usize, 1];
+    lagging.prefix = vec![PrefixOp::BlockTo(0, ahead.clone()), PrefixOp::ByzTo(0, ahead.clone()), PrefixOp::DeliverAmong(ahead.clone()), PrefixOp::ByzTo(1, ahead.clone()), PrefixOp::DeliverAmong(ahead.clone())];
+    for _ in 0..5 {
+        lagging.prefix.push(PrefixOp::TimersOnceAt(0, ahead.clone()));
+        lagging.prefix.push(PrefixOp::DeliverAmong(ahead.clone()));
+    }
+    lagging.prefix.extend([PrefixOp::ByzTo(2, ahead.clone()), PrefixOp::ByzTo(3, ahead.clone()), PrefixOp::DeliverAmong(ahead.clone())]);
+    lagging.prefix.extend([PrefixOp::BlockTo(1, ahead.clone()), PrefixOp::ByzTo(4, ahead.clone()), PrefixOp::DeliverAmong(ahead.clone()), PrefixOp::ByzTo(5, ahead.clone()), PrefixOp::DeliverAmong(ahead.clone())]);
     let systems = vec![
+        lagging,
         two_slots,
         second,
         ClusterSys::new(
@@ -360,7 +393,7 @@ fn run_liveness_prefixes(report: &Report, tier: Tier) -> Value {
         }
         std::process::exit(0);
     }
-    let depths = [tier.pick(3, 7), tier.pick(3, 8), tier.pick(4, 8), tier.pick(2, 7), tier.pick(3, 7)];
+    let depths = [tier.pick(3, 7), tier.pick(3, 7), tier.pick(3, 8), tier.pick(4, 8), tier.pick(2, 7), tier.pick(3, 7)];
     let mut per = Vec::new();
     for (inner, depth) in systems.into_iter().zip(depths) {
         let name = inner.name.clone();
